@@ -1,9 +1,11 @@
 (* C19 - Aggregate shortcuts lower to equivalent folds.
-   Only statements here; proofs live in Proofs/AggregateProofs.v.  [agg] is the model of
-   aggregate_node_transformer over the rule table regenerated from the source (Gen/Tables.v). *)
-From FA.Base Require Import PyAst Value Traverse.
+   Only statements here; proofs live in Proofs/AggregateProofs.v and Proofs/AggregateSem.v.
+   [agg] is the model of aggregate_node_transformer over the rule table regenerated from the
+   source (Gen/Tables.v); [eval] is the reference semantics (Base/Eval.v), in which
+   [len/Count/Sum] are Python's and [Max/Min] are the maximum/minimum "with 0 added". *)
+From FA.Base Require Import PyAst Value Eval Traverse.
 From FA.Model Require Import Aggregate.
-From FA.Proofs Require Import AggregateProofs.
+From FA.Proofs Require Import Refine AggregateProofs AggregateSem.
 
 (* the pass computes exactly the relation "rewrite every 1-argument, keyword-free call of
    len/Count/Sum/Max/Min into the corresponding fold; leave every other node as it is" *)
@@ -20,3 +22,38 @@ Print Assumptions agg_total.
 Theorem agg_complete : forall e e', agg e = Some e' -> no_shortcut e'.
 Proof. exact AggregateProofs.agg_complete. Qed.
 Print Assumptions agg_complete.
+
+(* for every backend, every environment (dataset) and every query: whenever the original evaluates
+   to v, so does the rewritten query - at any depth, inside lambdas and sequence arguments *)
+Theorem agg_sem :
+  forall (B : backend) (ops : list string) e e',
+    agg e = Some e' -> forall E v, eval B ops E e = Some v -> eval B ops E e' = Some v.
+Proof. intros B ops e e' H E v. exact (AggregateSem.agg_sem B ops e e' H E v). Qed.
+Print Assumptions agg_sem.
+
+(* the arithmetic content of the reference semantics used above *)
+Theorem max_with_zero : forall zs,
+  In (fold_left Z.max zs 0%Z) (0%Z :: zs) /\ forall z, In z (0%Z :: zs) -> (z <= fold_left Z.max zs 0)%Z.
+Proof. intros zs. exact (fold_max_spec zs 0%Z). Qed.
+Print Assumptions max_with_zero.
+
+Theorem min_with_zero : forall zs,
+  In (fold_left Z.min zs 0%Z) (0%Z :: zs) /\ forall z, In z (0%Z :: zs) -> (fold_left Z.min zs 0 <= z)%Z.
+Proof. intros zs. exact (fold_min_spec zs 0%Z). Qed.
+Print Assumptions min_with_zero.
+
+(* non-vacuity: concrete queries meet the hypotheses and the folds really compute *)
+Definition B0 : backend := {| attr_sem := fun _ _ => None; meth_sem := fun _ _ _ _ => None; fun_sem := fun _ _ _ => None |}.
+Definition ints (l : list Z) : value := VList (map VInt l).
+
+Example agg_runs :
+  let q := Call (Name "Select") [Name "s"; Lambda ["x"] (Call (Name "Sum") [Name "x"] [] [])] [] [] in
+  exists q', agg q = Some q' /\
+    eval B0 [] [("s", VList [ints [1; 2; 3]%Z; ints []; ints [-5]%Z])] q = Some (ints [6; 0; -5]%Z) /\
+    eval B0 [] [("s", VList [ints [1; 2; 3]%Z; ints []; ints [-5]%Z])] q' = Some (ints [6; 0; -5]%Z).
+Proof. eexists; split; [vm_compute; reflexivity | split; vm_compute; reflexivity]. Qed.
+
+Example agg_max_min_runs :
+  forall q', agg (Tuple [Call (Name "Max") [Name "s"] [] []; Call (Name "Min") [Name "s"] [] []; Call (Name "len") [Name "s"] [] []]) = Some q' ->
+    eval B0 [] [("s", ints [-3; -7]%Z)] q' = Some (VTuple [VInt 0; VInt (-7); VInt 2]).
+Proof. intros q' H. vm_compute in H. inversion H; subst. vm_compute. reflexivity. Qed.
